@@ -262,7 +262,9 @@ def run_property(prop: str, tier: str = "quick", seed: int = 0) -> int:
         "refuted_known": len(refuted) - len([v for v in violations if v["obligation"] in {r["name"] for r in refuted}]),
         "undecided": [r["name"] + (": " + r.get("error", "") if r.get("error") else "") for r in undecided],
         "engine_errors": [r["name"] + ": " + r.get("error", r.get("solver_result", "")) for r in engine_err],
-        "guards": {"total": len(guards), "ok": len([g for g in guards if g["status"] == "ok"]), "inconclusive": guards_inconclusive},
+        "guards": {"total": len(guards), "ok": len([g for g in guards if g["status"] == "ok"]), "inconclusive": guards_inconclusive,
+                   "hypotheses_probe": {k: len([r for r in results if r.get("hyps_probe") == k]) for k in ("sat", "unknown", "unsat")},
+                   "proved_from_contradictory_hypotheses": [r["name"] for r in results if r.get("hyps_probe") == "unsat"][:60]},
         "by_backend": per_backend,
         "solver_time_s": solver_time,
         "checker_cmd": f"./check {prop} --tier {tier}",
